@@ -107,6 +107,14 @@ impl TxIn {
         };
 
         // Script Sig
+        let remaining_bytes = (cursor.get_ref().len() as u64).saturating_sub(cursor.position());
+        if unlocking_script_size > remaining_bytes {
+            return Err(BSVErrors::DeserialiseTxIn(
+                "unlocking_script".to_string(),
+                std::io::Error::new(std::io::ErrorKind::UnexpectedEof, "script length exceeds the remaining bytes"),
+            ));
+        }
+
         let mut unlocking_script = vec![0; unlocking_script_size as usize];
         if let Err(e) = cursor.read(&mut unlocking_script) {
             return Err(BSVErrors::DeserialiseTxIn("unlocking_script".to_string(), e));
